@@ -10,6 +10,7 @@ mod cluster;
 mod sched;
 mod crash;
 mod s3;
+mod net;
 
 fn main() {
     let args: Vec<String> = std::env::args().collect();
@@ -17,7 +18,9 @@ fn main() {
         eprintln!("usage: drv <driver> <casefile> [workdir]");
         std::process::exit(2);
     }
-    std::panic::set_hook(Box::new(|_| {}));
+    if std::env::var("VERIF_SHOW_PANICS").is_err() {
+        std::panic::set_hook(Box::new(|_| {}));
+    }
     let workdir = args.get(3).cloned().unwrap_or_else(|| "/verif/.cache/run/default".to_string());
     match args[1].as_str() {
         "pending" => pending::run(&args[2], &workdir),
@@ -27,6 +30,8 @@ fn main() {
         "cluster" => cluster::run(&args[2], &workdir),
         "sched" => sched::run(&args[2], &workdir),
         "s3" => s3::run(&args[2], &workdir),
+        "net" => net::run(&args[2], &workdir),
+        "net1" => net::run_one(&args[2], &workdir, args[4].parse().unwrap()),
         "crashb" => crash::run_b(&args[2], &args[3], args.get(4).map(|s| s.as_str()).unwrap_or("A")),
         "crashc" => crash::run_c(&args[2]),
         "crashc11" => crash::run_c11(&args[2]),
